@@ -91,12 +91,15 @@ def digitsVal (val : Char → Option Nat) (radix : Nat) : List Char → Nat → 
     | some d => digitsVal val radix cs (radix * acc + d)
     | none => none
 
+/-- the optional leading `+` accepted by Rust's integer parsers -/
+def stripPlus : List Char → List Char
+  | '+' :: r => r
+  | s => s
+
 /-- Rust `uN::from_str_radix`: optional leading `+`, at least one digit, value ≤ `max`
     (Rust detects the overflow digit by digit; the set of accepted strings is the same). -/
 def parseUInt (val : Char → Option Nat) (radix max : Nat) (s : List Char) : Option Nat :=
-  let ds := match s with
-    | '+' :: r => r
-    | _ => s
+  let ds := stripPlus s
   if ds.isEmpty then none else
   match digitsVal val radix ds 0 with
   | some v => if v ≤ max then some v else none
@@ -238,8 +241,7 @@ def middleHops : List Iface → Except HopsErr (List Hop × Iface)
       if a.isd ≠ b.isd ∨ a.asn ≠ b.asn then .error .differentIsdAsn
       else .ok (⟨a.isd, a.asn, a.id, b.id⟩ :: hs, l)
 
-/-- first mismatch in iteration order wins: re-scan from the front (only the error class is observable,
-    and all mismatches have the same class, so `middleHops` already decides Ok/Err and the class). -/
+/-- `hops_from_path` on `path.metadata.map(|m| m.interfaces)` -/
 def hopsFromPath : Option (Option (List Iface)) → Except HopsErr (List Hop)
   | none => .error .noMetadata
   | some none => .error .noInterfaces
